@@ -43,6 +43,8 @@ struct Route
     olv common.Lvl?
     li List(Int32)?
     st common.Inner?
+    ts Timestamp("%Y")?
+    byt Bytes?
 '''
 SPEC = '''namespace ns
 
@@ -61,11 +63,11 @@ BASE = [fe.parse(COMMON, 'common.stone'), fe.parse(CFG, 'cfg.stone'), fe.parse(S
 assert fe.run_text([('common.stone', COMMON), ('cfg.stone', CFG), ('t.stone', SPEC % '')])[0] == 'ok'
 
 DEFAULTS = {'i': 1, 'u': None, 's': None, 'p': 'ab', 'b': False, 'f': None, 'lv': 'lo', 'olv': None, 'li': None,
-            'st': None}
+            'st': None, 'ts': None, 'byt': None}
 RULES = {'i': ('int', 0, 9), 'u': ('int', 0, 2**64 - 1), 's': ('str', 3, None), 'p': ('str', None, '[a-z]+'),
          'b': ('bool',), 'f': ('float',), 'req': ('str', None, None), 'lv': ('tag',), 'olv': ('tag',),
-         'li': ('none',), 'st': ('none',), 'zz': ('unknown',)}
-NULLABLE = ('u', 's', 'f', 'olv')
+         'li': ('none',), 'st': ('none',), 'zz': ('unknown',), 'ts': ('text',), 'byt': ('text',)}
+NULLABLE = ('u', 's', 'f', 'olv', 'ts', 'byt')
 
 
 def oracle_for(attr, v):
@@ -96,6 +98,8 @@ def oracle_for(attr, v):
         return 'accept' if isinstance(v, (int, float)) else 'reject'
     if kind == 'bool':
         return 'accept' if isinstance(v, bool) else 'reject'
+    if kind == 'text':
+        return 'unspec' if isinstance(v, str) else 'reject'
     if kind == 'str':
         if not isinstance(v, str):
             return 'reject'
@@ -171,11 +175,12 @@ _TG = ['stone.frontend.ir_generator:IRGenerator._populate_route_attributes_helpe
 _OUT = ['schemas other than the template stone_cfg.Route', 'Bytes / Timestamp attributes', 'booleans as numbers',
         'syntax-level errors', 'more than one symbolic attribute at a time']
 ATTRS = list(RULES)
+ITEM = hx.ITEM if hx.ITEM in RULES else 'i'
 
 
 def _items():
     if hx.ASPECT == 'C02':
-        return [a for a in ATTRS if RULES[a][0] not in ('none', 'unknown')]
+        return [a for a in ATTRS if RULES[a][0] not in ('none', 'unknown', 'text')]
     return ATTRS
 
 
@@ -187,6 +192,7 @@ def _items():
 def literal_attr(present: bool, v: V) -> bool:
     """
     pre: _str_ok(v)
+    pre: RULES[ITEM][0] != 'text' or not isinstance(v, str)
     post: _
     """
     return _decide(hx.ITEM, present, v)
